@@ -27,7 +27,31 @@ theorem ite_raise_eq_ok {c : Prop} [Decidable c] {s : String} {X : EPV.Out} :
     (if c then EPV.Out.raise s else X) = EPV.Out.ok ↔ ¬c ∧ X = EPV.Out.ok := by
   by_cases h : c <;> simp [h]
 
+theorem ite_else_raise_eq_ok {c : Prop} [Decidable c] {s : String} {X : EPV.Out} :
+    (if c then X else EPV.Out.raise s) = EPV.Out.ok ↔ c ∧ X = EPV.Out.ok := by
+  by_cases h : c <;> simp [h]
+
+theorem ite_eq_ok_iff {c : Prop} [Decidable c] {X Y : EPV.Out} :
+    (if c then X else Y) = EPV.Out.ok ↔ (c ∧ X = EPV.Out.ok) ∨ (¬c ∧ Y = EPV.Out.ok) := by
+  by_cases h : c <;> simp [h]
+
+theorem ite_ok_or_raise {c : Prop} {inst : Decidable c} {s : String} {X Y : EPV.Out}
+    (hX : X = EPV.Out.ok ∨ X = EPV.Out.raise s) (hY : Y = EPV.Out.ok ∨ Y = EPV.Out.raise s) :
+    (@ite _ c inst X Y) = EPV.Out.ok ∨ (@ite _ c inst X Y) = EPV.Out.raise s := by
+  by_cases h : c <;> simp [h, hX, hY]
+
+/-- every leaf of a traced tree is `ok` or raises the exception `s` -/
+macro "epv_ok_or_raise" : tactic =>
+  `(tactic| (simp only [epv_tree]
+             repeat' (first | exact Or.inl rfl | exact Or.inr rfl | apply ite_ok_or_raise)))
+
 /-! ### coordinates ↔ Euclidean space -/
+
+theorem vec2_0 (a b : ℝ) : (!₂[a, b] : E2) 0 = a := by simp
+theorem vec2_1 (a b : ℝ) : (!₂[a, b] : E2) 1 = b := by simp
+theorem vec3_0 (a b c : ℝ) : (!₂[a, b, c] : E3) 0 = a := by simp
+theorem vec3_1 (a b c : ℝ) : (!₂[a, b, c] : E3) 1 = b := by simp
+theorem vec3_2 (a b c : ℝ) : (!₂[a, b, c] : E3) 2 = c := by simp
 
 theorem sqrt_dist2 (q c : E2) :
     Real.sqrt ((q 0 - c 0) * (q 0 - c 0) + (q 1 - c 1) * (q 1 - c 1)) = dist q c := by
@@ -658,5 +682,139 @@ theorem k3_linearIsometry (φ : E →ₗᵢ[ℝ] E) (R D td : ℝ) (xd q : E) :
   simp only [k3theta_linearIsometry, cone_isometry φ.isometry, φ.norm_map]
 
 end invariance
+
+/-! ### change of units (C08): lengths × L, times × T, speeds × L/T -/
+
+section scaling
+variable {E : Type*} [NormedAddCommGroup E] [InnerProductSpace ℝ E]
+variable {L T : ℝ}
+
+theorem cone_scale (hL : 0 < L) (hT : 0 < T) (td D : ℝ) (c q : E) :
+    cone (T * td) (L / T * D) (L • c) (L • q) = T * cone td D c q := by
+  unfold cone
+  rw [dist_smul₀, Real.norm_eq_abs, abs_of_pos hL]
+  by_cases hD : D = 0
+  · simp [hD]
+  · field_simp
+
+theorem norm_scale (hL : 0 < L) (q : E) : ‖L • q‖ = L * ‖q‖ := by
+  rw [norm_smul, Real.norm_eq_abs, abs_of_pos hL]
+
+theorem k2_scale (hL : 0 < L) (hT : 0 < T) (R D1 D2 td1 td2 td3 td4 td5 : ℝ) (d1 d2 d4 d5 q : E) :
+    k2 (L * R) (L / T * D1) (L / T * D2) (T * td1) (T * td2) (T * td3) (T * td4) (T * td5)
+        (L • d1) (L • d2) (L • d4) (L • d5) (L • q)
+      = T * k2 R D1 D2 td1 td2 td3 td4 td5 d1 d2 d4 d5 q := by
+  unfold k2
+  rw [cone_scale hL hT, cone_scale hL hT, cone_scale hL hT, cone_scale hL hT, norm_scale hL]
+  have e3 : T * td3 + L * ‖q‖ / (L / T * D1) = T * (td3 + ‖q‖ / D1) := by
+    by_cases hD : D1 = 0
+    · simp [hD]
+    · field_simp
+  have e4 : T * td3 + L * ‖q‖ / (L / T * D2) + L * R * (1 / (L / T * D1) - 1 / (L / T * D2))
+      = T * (td3 + ‖q‖ / D2 + R * (1 / D1 - 1 / D2)) := by
+    by_cases hD1 : D1 = 0 <;> by_cases hD2 : D2 = 0 <;> simp [hD1, hD2] <;> field_simp
+  rw [e3, e4, ← mul_max_of_nonneg _ _ hT.le, ← mul_min_of_nonneg _ _ hT.le, ← mul_min_of_nonneg _ _ hT.le,
+    ← mul_min_of_nonneg _ _ hT.le, ← mul_min_of_nonneg _ _ hT.le]
+
+theorem k3theta_scale (hL : 0 < L) (R : ℝ) (xd q : E) : k3theta (L * R) (L • xd) (L • q) = k3theta R xd q := by
+  unfold k3theta
+  rw [norm_scale hL, norm_scale hL, inner_smul_left, inner_smul_right]
+  have h1 : -(L * (L * inner ℝ q xd)) / (L * ‖xd‖ * (L * ‖q‖)) = -(inner ℝ q xd) / (‖xd‖ * ‖q‖) := by
+    by_cases h : ‖xd‖ * ‖q‖ = 0
+    · rcases mul_eq_zero.mp h with h | h <;> simp [h]
+    · have h' := mul_ne_zero_iff.mp h
+      field_simp
+  have h2 : L * R / (L * ‖q‖) = R / ‖q‖ := mul_div_mul_left _ _ hL.ne'
+  have h3 : L * R / (L * ‖xd‖) = R / ‖xd‖ := mul_div_mul_left _ _ hL.ne'
+  simp only [RCLike.conj_to_real] at h1 ⊢
+  rw [h1, h2, h3]
+
+theorem sqrt_scale (hL : 0 < L) (a b : ℝ) : Real.sqrt ((L * a) ^ 2 - (L * b) ^ 2) = L * Real.sqrt (a ^ 2 - b ^ 2) := by
+  rw [show (L * a) ^ 2 - (L * b) ^ 2 = L ^ 2 * (a ^ 2 - b ^ 2) by ring, Real.sqrt_mul (sq_nonneg L),
+    Real.sqrt_sq hL.le]
+
+theorem k3_scale (hL : 0 < L) (hT : 0 < T) (R D td : ℝ) (xd q : E) :
+    k3 (L * R) (L / T * D) (T * td) (L • xd) (L • q) = T * k3 R D td xd q := by
+  unfold k3 k3path
+  rw [k3theta_scale hL, cone_scale hL hT, norm_scale hL, norm_scale hL, sqrt_scale hL, sqrt_scale hL]
+  split_ifs
+  · by_cases hD : D = 0
+    · simp [hD]
+    · field_simp
+  · rfl
+
+theorem dsdLeg_scale (hL : 0 < L) (hT : 0 < T) (D α r0 r : ℝ) :
+    dsdLeg (L / T * D) (L ^ 2 / T * α) (L * r0) (L * r) = T * dsdLeg D α r0 r := by
+  unfold dsdLeg
+  by_cases hD : D = 0
+  · simp [hD]
+  have hv : L ^ 2 / T * α / (L / T * D) = L * (α / D) := by field_simp
+  rw [hv]
+  have hlog : (L * r - L * (α / D)) / (L * r0 - L * (α / D)) = (r - α / D) / (r0 - α / D) := by
+    rw [← mul_sub, ← mul_sub, mul_div_mul_left _ _ hL.ne']
+  rw [hlog]
+  field_simp
+
+theorem dsd_scale (hL : 0 < L) (hT : 0 < T) (r1 r2 D1 D2 α1 α2 td r : ℝ) :
+    dsd (L * r1) (L * r2) (L / T * D1) (L / T * D2) (L ^ 2 / T * α1) (L ^ 2 / T * α2) (T * td) (L * r)
+      = T * dsd r1 r2 D1 D2 α1 α2 td r := by
+  unfold dsd
+  rw [dsdLeg_scale hL hT, dsdLeg_scale hL hT, dsdLeg_scale hL hT]
+  have c1 : L * r < L * r1 ↔ r < r1 := mul_lt_mul_iff_right₀ hL
+  have c2 : L * r < L * r2 ↔ r < r2 := mul_lt_mul_iff_right₀ hL
+  simp only [c1, c2]
+  split_ifs <;> ring
+
+end scaling
+
+/-! ### explicit rotations and reflections as linear isometries -/
+
+/-- rotation of the plane by the angle θ -/
+noncomputable def rot2 (θ : ℝ) : E2 →ₗᵢ[ℝ] E2 where
+  toFun q := !₂[q 0 * Real.cos θ - q 1 * Real.sin θ, q 0 * Real.sin θ + q 1 * Real.cos θ]
+  map_add' q r := by ext i; fin_cases i <;> simp <;> ring
+  map_smul' c q := by ext i; fin_cases i <;> simp <;> ring
+  norm_map' q := by
+    rw [← sqrt_norm2, ← sqrt_norm2]; congr 1; simp
+    linear_combination (q 0 * q 0 + q 1 * q 1) * Real.sin_sq_add_cos_sq θ
+
+@[simp] theorem rot2_0 (θ : ℝ) (q : E2) : (rot2 θ q) 0 = q 0 * Real.cos θ - q 1 * Real.sin θ := by simp [rot2]
+@[simp] theorem rot2_1 (θ : ℝ) (q : E2) : (rot2 θ q) 1 = q 0 * Real.sin θ + q 1 * Real.cos θ := by simp [rot2]
+
+/-- reflection of the plane through the y axis: (x, y) ↦ (-x, y) -/
+noncomputable def reflX2 : E2 →ₗᵢ[ℝ] E2 where
+  toFun q := !₂[-(q 0), q 1]
+  map_add' q r := by ext i; fin_cases i <;> simp <;> ring
+  map_smul' c q := by ext i; fin_cases i <;> simp
+  norm_map' q := by
+    rw [← sqrt_norm2, ← sqrt_norm2]; congr 1; simp
+
+@[simp] theorem reflX2_0 (q : E2) : (reflX2 q) 0 = -(q 0) := by simp [reflX2]
+@[simp] theorem reflX2_1 (q : E2) : (reflX2 q) 1 = q 1 := by simp [reflX2]
+
+/-- rotation of space about the z axis by the angle θ -/
+noncomputable def rotZ3 (θ : ℝ) : E3 →ₗᵢ[ℝ] E3 where
+  toFun q := !₂[q 0 * Real.cos θ - q 1 * Real.sin θ, q 0 * Real.sin θ + q 1 * Real.cos θ, q 2]
+  map_add' q r := by ext i; fin_cases i <;> simp <;> ring
+  map_smul' c q := by ext i; fin_cases i <;> simp <;> ring
+  norm_map' q := by
+    rw [← sqrt_norm3, ← sqrt_norm3]; congr 1; simp
+    linear_combination (q 0 * q 0 + q 1 * q 1) * Real.sin_sq_add_cos_sq θ
+
+@[simp] theorem rotZ3_0 (θ : ℝ) (q : E3) : (rotZ3 θ q) 0 = q 0 * Real.cos θ - q 1 * Real.sin θ := by simp [rotZ3]
+@[simp] theorem rotZ3_1 (θ : ℝ) (q : E3) : (rotZ3 θ q) 1 = q 0 * Real.sin θ + q 1 * Real.cos θ := by simp [rotZ3]
+@[simp] theorem rotZ3_2 (θ : ℝ) (q : E3) : (rotZ3 θ q) 2 = q 2 := by simp [rotZ3]
+
+/-- reflection of space through the plane x = 0 (a plane containing the z axis) -/
+noncomputable def reflX3 : E3 →ₗᵢ[ℝ] E3 where
+  toFun q := !₂[-(q 0), q 1, q 2]
+  map_add' q r := by ext i; fin_cases i <;> simp <;> ring
+  map_smul' c q := by ext i; fin_cases i <;> simp
+  norm_map' q := by
+    rw [← sqrt_norm3, ← sqrt_norm3]; congr 1; simp
+
+@[simp] theorem reflX3_0 (q : E3) : (reflX3 q) 0 = -(q 0) := by simp [reflX3]
+@[simp] theorem reflX3_1 (q : E3) : (reflX3 q) 1 = q 1 := by simp [reflX3]
+@[simp] theorem reflX3_2 (q : E3) : (reflX3 q) 2 = q 2 := by simp [reflX3]
 
 end EPV.Burn
